@@ -5,7 +5,7 @@
    is its count and wordnet.synsets(word). *)
 From Coq Require Import ZArith QArith List Bool.
 Import ListNotations.
-Require Import WnV.Base.Sx WnV.Model.Taxonomy WnV.Model.Ic WnV.Proofs.TaxSpec WnV.Proofs.IcProofs.
+Require Import WnV.Base.Sx WnV.Model.Taxonomy WnV.Model.Ic WnV.Proofs.TaxSpec WnV.Proofs.IcProofs WnV.Proofs.IcConserve.
 
 (* (1) the loop credits exactly the word synset and its hypernym ancestors, each once *)
 Theorem C15_ancestors_exact : forall hyp fuel x l,
@@ -50,6 +50,33 @@ Theorem C15_totals : forall hyp cls fuel distribute corpus ev smoothing k,
                                              (cw_synsets w)) corpus).
 Proof. exact compute_total_entry. Qed.
 Print Assumptions C15_totals.
+
+(* (4b) conservation in closed form: every corpus word known, all its synsets of IC class k,
+   weights distributed: the class total is the smoothing value plus the sum of the corpus
+   counts (the shares of a word add up to its count); undistributed, every synset of a word
+   adds the whole count *)
+Theorem C15_share_sum : forall w,
+    cw_synsets w <> [] ->
+    sumQ (map (fun _ => weight true w) (cw_synsets w)) == inject_Z (cw_count w).
+Proof. exact weight_distributes. Qed.
+Print Assumptions C15_share_sum.
+
+Theorem C15_total_conserved : forall hyp cls fuel corpus ev smoothing k,
+    compute_events hyp cls fuel true corpus = Ok ev -> (0 <= k)%Z ->
+    (forall w, In w corpus -> cw_synsets w <> []) ->
+    (forall w s, In w corpus -> In s (cw_synsets w) -> cls s = k) ->
+    entry smoothing ev (Total k) == smoothing + sumQ (map (fun w => inject_Z (cw_count w)) corpus).
+Proof. exact total_conserved. Qed.
+Print Assumptions C15_total_conserved.
+
+Theorem C15_total_undistributed : forall hyp cls fuel corpus ev smoothing k,
+    compute_events hyp cls fuel false corpus = Ok ev -> (0 <= k)%Z ->
+    (forall w s, In w corpus -> In s (cw_synsets w) -> cls s = k) ->
+    entry smoothing ev (Total k)
+    == smoothing + sumQ (map (fun w => inject_Z (Z.of_nat (length (cw_synsets w)))
+                                       * inject_Z (cw_count w)) corpus).
+Proof. exact total_undistributed. Qed.
+Print Assumptions C15_total_undistributed.
 
 (* (5) weights never decrease going up the taxonomy *)
 Theorem C15_monotone : forall hyp cls fuel distribute corpus ev smoothing t u,
